@@ -369,3 +369,177 @@ int vd_tree_main(int argc, char **argv)
     if (stats) vd_write_stats(stats, extra);
     return VD.violations ? 1 : 0;
 }
+
+/* ======================================================================================================
+ * treerand mode: reverse conformance.  Random histories are run on the REAL library (no specification in
+ * the loop); every call is logged with its arguments, result and the projected heap afterwards, in the
+ * specification's vocabulary (node ids: the k-th new node in pre-order gets the k-th smallest free id).
+ * Trace_Tree.tla accepts the log iff every step is a step of Tree.tla.
+ * ====================================================================================================== */
+#define RN 10
+static cJSON *rp[RN + 1]; static int rroot[RN + 1];
+static FILE *tracef; static long trace_events;
+static const char *RKEYS[] = { "a", "A", "b", "B", "ab" };
+static const char *RSTRS[] = { "", "x", "xy", "hello" };
+static unsigned rs_state;
+static unsigned rnd(unsigned n) { rs_state = rs_state * 1103515245u + 12345u; return (rs_state >> 16) % (n ? n : 1); }
+
+static int rid_of(const cJSON *p) { int i; if (!p) return 0; for (i = 1; i <= RN; i++) if (rp[i] == p) return i; return -1; }
+static int rfree_count(void) { int i, n = 0; for (i = 1; i <= RN; i++) if (!rp[i]) n++; return n; }
+static void rassign_new(cJSON *t, int isroot)          /* pre-order: unknown nodes get the smallest free ids */
+{
+    cJSON *c; int i;
+    if (!t || !al_is_live(t)) return;
+    if (rid_of(t) < 0) { for (i = 1; i <= RN; i++) if (!rp[i]) { rp[i] = t; rroot[i] = isroot; break; } }
+    if (!(t->type & cJSON_IsReference)) for (c = t->child; c; c = c->next) rassign_new(c, 0);
+}
+static int rsubtree_has(const cJSON *t, const cJSON *x) { const cJSON *c; if (t == x) return 1; for (c = t->child; c; c = c->next) if (rsubtree_has(c, x)) return 1; return 0; }
+static int rsubtree_size(const cJSON *t) { const cJSON *c; int n = 1; for (c = t->child; c; c = c->next) n += rsubtree_size(c); return n; }
+static void jbytes(FILE *f, const char *s) { const unsigned char *p; int first = 1; if (!s) { fputs("[-1]", f); return; } fputc('[', f); for (p = (const unsigned char*)s; *p; p++) { fprintf(f, "%s%u", first ? "" : ",", *p); first = 0; } fputc(']', f); }
+static const char *kind_name(int t) { switch (t & 0xFF) { case cJSON_NULL: return "null"; case cJSON_False: return "false"; case cJSON_True: return "true"; case cJSON_Number: return "num"; case cJSON_String: return "str"; case cJSON_Raw: return "raw"; case cJSON_Array: return "arr"; case cJSON_Object: return "obj"; default: return "invalid"; } }
+static void log_post(void)
+{
+    int i, first;
+    fputs(",\"post\":[", tracef);
+    for (i = 1; i <= RN; i++) {
+        cJSON *n = rp[i];
+        if (i > 1) fputc(',', tracef);
+        if (!n) { fputs("[]", tracef); continue; }
+        fprintf(tracef, "[\"%s\",%s,%s,%d,%d,%d,", kind_name(n->type), (n->type & cJSON_IsReference) ? "true" : "false", (n->type & cJSON_StringIsConst) ? "true" : "false",
+                rid_of(n->next), rid_of(n->prev), rid_of(n->child));
+        jbytes(tracef, n->string); fputc(',', tracef); jbytes(tracef, n->valuestring);
+        fprintf(tracef, ",%d,0,false,%s]", (n->type & 0xFF) == cJSON_Number ? n->valueint : 0, rroot[i] ? "true" : "false");
+    }
+    fputs("],\"q\":[", tracef);
+    for (i = 1; i <= RN; i++) {
+        cJSON *n = rp[i], *c; int k = 0;
+        if (i > 1) fputc(',', tracef);
+        if (!n || ((n->type & 0xFF) != cJSON_Array && (n->type & 0xFF) != cJSON_Object)) { fputs("[]", tracef); continue; }
+        fprintf(tracef, "[%d,[", cJSON_GetArraySize(n));
+        first = 1; for (c = cJSON_GetArrayItem(n, 0); c; c = cJSON_GetArrayItem(n, ++k)) { fprintf(tracef, "%s%d", first ? "" : ",", rid_of(c)); first = 0; if (k > RN) break; }
+        fputs("]]", tracef);
+    }
+    fputs("]}\n", tracef);
+}
+static void after_call(cJSON *result_root)
+{
+    int i;
+    for (i = 1; i <= RN; i++) if (rp[i] && !al_is_live(rp[i])) { rp[i] = NULL; rroot[i] = 0; }    /* released nodes give their ids back */
+    if (result_root) rassign_new(result_root, 1);
+    for (i = 1; i <= RN; i++) if (rp[i]) rassign_new(rp[i], rroot[i]);                             /* nodes created below existing ones */
+}
+static void res_ptr(cJSON *p) { if (p) fprintf(tracef, ",\"res\":{\"t\":\"ptr\",\"id\":%d}", rid_of(p)); else fputs(",\"res\":{\"t\":\"null\"}", tracef); }
+static void res_bool(int b) { fprintf(tracef, ",\"res\":{\"t\":\"bool\",\"v\":%s}", b ? "true" : "false"); }
+
+int vd_treerand_main(int argc, char **argv);
+int vd_treerand_main(int argc, char **argv)
+{
+    int k, hist, histories = 30, steps = 150; const char *out = NULL, *stats = NULL; cJSON_Hooks hooks; unsigned seed = 1;
+    for (k = 0; k < argc; k++) {
+        if (!strcmp(argv[k], "--trace") && k + 1 < argc) out = argv[k + 1];
+        if (!strcmp(argv[k], "--stats") && k + 1 < argc) stats = argv[k + 1];
+        if (!strcmp(argv[k], "--seed") && k + 1 < argc) seed = (unsigned)atoi(argv[k + 1]);
+        if (!strcmp(argv[k], "--histories") && k + 1 < argc) histories = atoi(argv[k + 1]);
+        if (!strcmp(argv[k], "--steps") && k + 1 < argc) steps = atoi(argv[k + 1]);
+    }
+    if (!out) { fprintf(stderr, "treerand: --trace <file> required\n"); return 2; }
+    tracef = fopen(out, "w"); rs_state = seed * 2654435761u + 7;
+    hooks.malloc_fn = al_malloc; hooks.free_fn = al_free; cJSON_InitHooks(&hooks);
+    vd_install_handlers();
+    for (hist = 0; hist < histories; hist++) {
+        int step;
+        al_case_begin(); cm_case_begin(); memset(rp, 0, sizeof(rp)); memset(rroot, 0, sizeof(rroot));
+        fputs("{\"e\":\"Reset\"}\n", tracef);
+        for (step = 0; step < steps; step++) {
+            int conts[RN], nc = 0, arrs[RN], na = 0, objs[RN], no = 0, roots[RN], nr = 0, lives[RN], nl = 0, i, op;
+            for (i = 1; i <= RN; i++) if (rp[i]) { int kc = rp[i]->type & 0xFF; lives[nl++] = i; if (rroot[i]) roots[nr++] = i; if (kc == cJSON_Array) { arrs[na++] = i; conts[nc++] = i; } if (kc == cJSON_Object) { objs[no++] = i; conts[nc++] = i; } }
+            op = (int)rnd(24);
+            if (!VD_TRY()) { vd_violation("random history %d step %d: memory fault in the library", hist, step); fclose(tracef); return 1; }
+            if (nl == 0 || (op < 5 && rfree_count() > 0)) {                        /* create */
+                int what = (int)rnd(9); cJSON *n = NULL; const char *s = RSTRS[rnd(4)]; int num = (int)rnd(3);
+                if (rfree_count() == 0) { VD_END(); continue; }
+                switch (what) {
+                    case 0: n = cJSON_CreateNull(); fprintf(tracef, "{\"e\":\"Call\",\"a\":[\"Create\",\"null\",0]"); break;
+                    case 1: n = cJSON_CreateTrue(); fprintf(tracef, "{\"e\":\"Call\",\"a\":[\"Create\",\"true\",0]"); break;
+                    case 2: n = cJSON_CreateBool(0); fprintf(tracef, "{\"e\":\"Call\",\"a\":[\"Create\",\"false\",0]"); break;
+                    case 3: case 4: n = cJSON_CreateArray(); fprintf(tracef, "{\"e\":\"Call\",\"a\":[\"Create\",\"arr\",0]"); break;
+                    case 5: case 6: n = cJSON_CreateObject(); fprintf(tracef, "{\"e\":\"Call\",\"a\":[\"Create\",\"obj\",0]"); break;
+                    case 7: n = cJSON_CreateNumber(num); fprintf(tracef, "{\"e\":\"Call\",\"a\":[\"CreateNumber\",%d,0]", num); break;
+                    default: n = rnd(4) ? cJSON_CreateString(s) : cJSON_CreateRaw(s); fprintf(tracef, "{\"e\":\"Call\",\"a\":[\"CreateStr\",\"%s\",", (n->type & 0xFF) == cJSON_Raw ? "raw" : "str"); jbytes(tracef, s); fputs(",0]", tracef); break;
+                }
+                after_call(n); res_ptr(n);
+            } else if (op < 8 && na && nr) {                                   /* add / insert into array */
+                int p = arrs[rnd((unsigned)na)], it = roots[rnd((unsigned)nr)]; int r;
+                if (p != it && rsubtree_has(rp[it], rp[p])) { VD_END(); continue; }
+                if (rnd(2)) { r = cJSON_AddItemToArray(rp[p], rp[it]); fprintf(tracef, "{\"e\":\"Call\",\"a\":[\"AddItemToArray\",%d,%d]", p, it); }
+                else { int idx = (int)rnd(4) - 1; if (p == it) { VD_END(); continue; } r = cJSON_InsertItemInArray(rp[p], idx, rp[it]); fprintf(tracef, "{\"e\":\"Call\",\"a\":[\"InsertItemInArray\",%d,%d,%d]", p, idx, it); }
+                if (r) rroot[it] = 0;
+                after_call(NULL); res_bool(r);
+            } else if (op < 12 && no && nr) {                                  /* add to object */
+                int p = objs[rnd((unsigned)no)], it = roots[rnd((unsigned)nr)], r, mode = (int)rnd(3); const char *key = RKEYS[rnd(5)];
+                if (p != it && rsubtree_has(rp[it], rp[p])) { VD_END(); continue; }
+                if (mode == 2 && rp[it]->string && p != it) { fprintf(tracef, "{\"e\":\"Call\",\"a\":[\"AddItemToObjectAlias\",%d,%d,0]", p, it); r = cJSON_AddItemToObject(rp[p], rp[it]->string, rp[it]); }
+                else if (mode == 1) { char *ck = cm_string(key); r = cJSON_AddItemToObjectCS(rp[p], ck, rp[it]); fprintf(tracef, "{\"e\":\"Call\",\"a\":[\"AddItemToObjectCS\",%d,", p); jbytes(tracef, key); fprintf(tracef, ",%d,0]", it); }
+                else { r = cJSON_AddItemToObject(rp[p], key, rp[it]); fprintf(tracef, "{\"e\":\"Call\",\"a\":[\"AddItemToObject\",%d,", p); jbytes(tracef, key); fprintf(tracef, ",%d,0]", it); }
+                if (r) rroot[it] = 0;
+                after_call(NULL); res_bool(r);
+            } else if (op < 13 && no && rfree_count() > 0) {                   /* Add<X>ToObject */
+                int p = objs[rnd((unsigned)no)]; const char *key = RKEYS[rnd(5)]; cJSON *n; int what = (int)rnd(4);
+                if (what == 0) { n = cJSON_AddNullToObject(rp[p], key); fprintf(tracef, "{\"e\":\"Call\",\"a\":[\"AddNewToObject\",%d,", p); jbytes(tracef, key); fputs(",\"null\",[-1],0,0]", tracef); }
+                else if (what == 1) { n = cJSON_AddNumberToObject(rp[p], key, 2); fprintf(tracef, "{\"e\":\"Call\",\"a\":[\"AddNewToObject\",%d,", p); jbytes(tracef, key); fputs(",\"num\",[-1],2,0]", tracef); }
+                else if (what == 2) { n = cJSON_AddStringToObject(rp[p], key, "xy"); fprintf(tracef, "{\"e\":\"Call\",\"a\":[\"AddNewToObject\",%d,", p); jbytes(tracef, key); fputs(",\"str\",[120,121],0,0]", tracef); }
+                else { n = cJSON_AddArrayToObject(rp[p], key); fprintf(tracef, "{\"e\":\"Call\",\"a\":[\"AddNewToObject\",%d,", p); jbytes(tracef, key); fputs(",\"arr\",[-1],0,0]", tracef); }
+                after_call(NULL); res_ptr(n);
+            } else if (op < 16 && nc) {                                        /* detach */
+                int p = conts[rnd((unsigned)nc)]; cJSON *d; int mode = (int)rnd(4);
+                if (mode == 0) { int n = cJSON_GetArraySize(rp[p]); cJSON *c = n ? cJSON_GetArrayItem(rp[p], (int)rnd((unsigned)n)) : NULL; if (!c) { VD_END(); continue; } fprintf(tracef, "{\"e\":\"Call\",\"a\":[\"DetachItemViaPointer\",%d,%d]", p, rid_of(c)); d = cJSON_DetachItemViaPointer(rp[p], c); }
+                else if (mode == 1 && (rp[p]->type & 0xFF) == cJSON_Array) { int idx = (int)rnd(5) - 1; fprintf(tracef, "{\"e\":\"Call\",\"a\":[\"DetachItemFromArray\",%d,%d]", p, idx); d = cJSON_DetachItemFromArray(rp[p], idx); }
+                else if ((rp[p]->type & 0xFF) == cJSON_Object) { const char *key = RKEYS[rnd(5)]; int cs = (int)rnd(2); fprintf(tracef, "{\"e\":\"Call\",\"a\":[\"%s\",%d,", cs ? "DetachItemFromObjectCaseSensitive" : "DetachItemFromObject", p); jbytes(tracef, key); fputs("]", tracef); d = cs ? cJSON_DetachItemFromObjectCaseSensitive(rp[p], key) : cJSON_DetachItemFromObject(rp[p], key); }
+                else { VD_END(); continue; }
+                if (d) rroot[rid_of(d)] = 1;
+                after_call(NULL); res_ptr(d);
+            } else if (op < 18 && nr) {                                        /* delete a root / delete from container */
+                int it = roots[rnd((unsigned)nr)];
+                if (nc && rnd(2)) { int p = conts[rnd((unsigned)nc)];
+                    if ((rp[p]->type & 0xFF) == cJSON_Array) { int idx = (int)rnd(4) - 1; fprintf(tracef, "{\"e\":\"Call\",\"a\":[\"DeleteItemFromArray\",%d,%d]", p, idx); cJSON_DeleteItemFromArray(rp[p], idx); }
+                    else { const char *key = RKEYS[rnd(5)]; int cs = (int)rnd(2); fprintf(tracef, "{\"e\":\"Call\",\"a\":[\"%s\",%d,", cs ? "DeleteItemFromObjectCaseSensitive" : "DeleteItemFromObject", p); jbytes(tracef, key); fputs("]", tracef); if (cs) cJSON_DeleteItemFromObjectCaseSensitive(rp[p], key); else cJSON_DeleteItemFromObject(rp[p], key); }
+                } else { fprintf(tracef, "{\"e\":\"Call\",\"a\":[\"Delete\",%d]", it); cJSON_Delete(rp[it]); }
+                after_call(NULL); fputs(",\"res\":{\"t\":\"void\"}", tracef);
+            } else if (op < 21 && nc && nr) {                                  /* replace */
+                int p = conts[rnd((unsigned)nc)], r = roots[rnd((unsigned)nr)], ok, mode = (int)rnd(3), isobj = (rp[p]->type & 0xFF) == cJSON_Object;
+                if (rsubtree_has(rp[r], rp[p])) { VD_END(); continue; }
+                if (mode == 0) { int n = cJSON_GetArraySize(rp[p]); cJSON *c = n ? cJSON_GetArrayItem(rp[p], (int)rnd((unsigned)n)) : NULL; if (!c || (isobj && !rp[r]->string)) { VD_END(); continue; }
+                    fprintf(tracef, "{\"e\":\"Call\",\"a\":[\"ReplaceItemViaPointer\",%d,%d,%d]", p, rid_of(c), r); ok = cJSON_ReplaceItemViaPointer(rp[p], c, rp[r]); }
+                else if (!isobj) { int idx = (int)rnd(4) - 1; fprintf(tracef, "{\"e\":\"Call\",\"a\":[\"ReplaceItemInArray\",%d,%d,%d]", p, idx, r); ok = cJSON_ReplaceItemInArray(rp[p], idx, rp[r]); }
+                else { const char *key = RKEYS[rnd(5)]; int cs = (int)rnd(2); fprintf(tracef, "{\"e\":\"Call\",\"a\":[\"%s\",%d,", cs ? "ReplaceItemInObjectCaseSensitive" : "ReplaceItemInObject", p); jbytes(tracef, key); fprintf(tracef, ",%d,0]", r);
+                    ok = cs ? cJSON_ReplaceItemInObjectCaseSensitive(rp[p], key, rp[r]) : cJSON_ReplaceItemInObject(rp[p], key, rp[r]); }
+                if (ok) rroot[r] = 0;
+                after_call(NULL); res_bool(ok);
+            } else if (op < 22 && nl) {                                        /* set */
+                int it = lives[rnd((unsigned)nl)], kc = rp[it]->type & 0xFF;
+                if (kc == cJSON_Number) { int v = (int)rnd(3); double d = cJSON_SetNumberHelper(rp[it], v); fprintf(tracef, "{\"e\":\"Call\",\"a\":[\"SetNumberHelper\",%d,%d]", it, v); after_call(NULL); fprintf(tracef, ",\"res\":{\"t\":\"num\",\"v\":%d}", (int)d); }
+                else if (kc == cJSON_True || kc == cJSON_False) { int b = (int)rnd(2); int t = cJSON_SetBoolValue(rp[it], b); fprintf(tracef, "{\"e\":\"Call\",\"a\":[\"SetBoolValue\",%d,%s]", it, b ? "true" : "false"); after_call(NULL); fprintf(tracef, ",\"res\":{\"t\":\"type\",\"v\":\"%s\"}", kind_name(t)); }
+                else { const char *s = RSTRS[rnd(4)]; char *r = cJSON_SetValuestring(rp[it], s); fprintf(tracef, "{\"e\":\"Call\",\"a\":[\"SetValuestring\",%d,", it); jbytes(tracef, s); fputs(",0]", tracef); after_call(NULL);
+                    if (r) { fputs(",\"res\":{\"t\":\"str\",\"v\":", tracef); jbytes(tracef, r); fputs("}", tracef); } else fputs(",\"res\":{\"t\":\"null\"}", tracef); }
+            } else if (op < 23 && nl) {                                        /* duplicate */
+                int it = lives[rnd((unsigned)nl)], rec = (int)rnd(2); cJSON *d;
+                if ((rec ? rsubtree_size(rp[it]) : 1) > rfree_count()) { VD_END(); continue; }
+                d = cJSON_Duplicate(rp[it], rec); fprintf(tracef, "{\"e\":\"Call\",\"a\":[\"Duplicate\",%d,%s,0]", it, rec ? "true" : "false");
+                after_call(d); res_ptr(d);
+            } else if (no) {                                                   /* sort */
+                int p = objs[rnd((unsigned)no)], cs = (int)rnd(2);
+                if (cs) cJSONUtils_SortObjectCaseSensitive(rp[p]); else cJSONUtils_SortObject(rp[p]);
+                fprintf(tracef, "{\"e\":\"Call\",\"a\":[\"SortObject\",%d,%s]", p, cs ? "true" : "false"); after_call(NULL); fputs(",\"res\":{\"t\":\"void\"}", tracef);
+            } else { VD_END(); continue; }
+            VD_END();
+            log_post(); trace_events++; VD.cases++; VD.nontrivial++;
+            if (al_bad_free) { vd_violation("random history %d step %d: invalid release", hist, step); fclose(tracef); return 1; }
+        }
+        /* end of history: release everything the caller holds; the allocator must balance */
+        { int i; for (i = 1; i <= RN; i++) if (rp[i] && rroot[i]) cJSON_Delete(rp[i]); }
+        if (al_live != 0 || al_bad_free) { vd_violation("random history %d: %ld block(s) remain after all roots were deleted, %ld invalid releases", hist, al_live, al_bad_free); }
+    }
+    fclose(tracef);
+    { char extra[128]; snprintf(extra, sizeof(extra), "\"histories\": %d, \"events\": %ld", histories, trace_events); if (stats) vd_write_stats(stats, extra); }
+    return VD.violations ? 1 : 0;
+}
